@@ -3,6 +3,8 @@ import GrinVerif.Lemmas.KvSpace
 import GrinVerif.Lemmas.KvResize
 import GrinVerif.Lemmas.TxCount
 import GrinVerif.Lemmas.ChainStoreProg
+import GrinVerif.Lemmas.KvGate
+import GrinVerif.Gen.KvGate
 /-! # C18 — database batches are atomic, isolated and survive growth of the map
 
 Property theorems only (helpers in `Lemmas/Kv.lean`, `Lemmas/KvProg.lean`; the model of
@@ -18,8 +20,12 @@ child batches, each child with its commit/drop decision) of *arbitrary* size and
 bodies, all depths.
 
 What is *not* a theorem here (runtime, checked only by the correspondence harness on the real
-LMDB): that LMDB implements this contract, real thread interleavings, the liveness of the 100 ms /
-10 ms poll loops of the resize gate, durability of `mdb_txn_commit` against process death. -/
+LMDB): that LMDB implements this contract, real thread interleavings, durability of
+`mdb_txn_commit` against process death.  The poll loops of the resize gate: their SHAPE (one exit,
+no bound, gate before transaction) is regenerated from the source into `Gen/KvGate.lean` and pinned
+by the obligations of section `gate shape` below; what a loop of that shape does is a theorem
+(`op_during_pending_resize_returns_spec`); that the scheduler lets a sleeping thread run again is
+runtime (run `slowreader`). -/
 namespace GV.Props.C18
 open GV GV.Kv
 
@@ -800,6 +806,330 @@ example : alloc { mapPages := 100, lastPg := 98, free := [10, 12, 14, 16, 18, 20
 
 example : spaceOk 1048576 230 19 1048576 = true ∧ spaceOk 1048576 250 19 1048576 = true ∧
     spaceOk 1048576 200 60 1048576 = false := by decide
+
+/-! ## gate shape: the wait of `enter_tx` and of the resizer as READ OFF THE SOURCE on every run
+
+`Gen/KvGate.lean` is regenerated by `tools/gen_kvgate.py` from `store/src/lmdb.rs`.  The obligations
+below are about the generated values: if the gate of the code gets a second way out (an error after
+N seconds, a `break`, a `?`), a bound (`for`, `while`, a clock, a counter), a parameter, a site
+that opens its LMDB transaction first or discards the counter, they no longer check - whether or
+not any test waits long enough to notice.  The theorems after them have a shape as HYPOTHESIS and
+are instantiated with the generated one. -/
+section gateShape
+open KvGate TxCount
+
+/-- the extractor could read the source at all -/
+theorem gate_source_was_read : Gen.KvGate.parseError = none := by decide
+
+/-- `fn enter_tx(&self) -> TxCounter`: no parameter that could switch the gate off, a return type
+that cannot carry a failure -/
+theorem gate_returns_counter :
+    Gen.KvGate.enterTx.ret = .txCounter ∧ Gen.KvGate.enterTx.params = 0 := by decide
+
+/-- the wait of `enter_tx` has ONE way out: `return TxCounter { .. }` under
+`!resizing || nested_tx` - no `return Err`, no `break`, no `?`, no panic -/
+theorem gate_has_no_failure_exit :
+    Gen.KvGate.enterTx.wait.exits = [{ kind := .pass, guard := [.notResizing, .threadNested] }] := by decide
+
+/-- … it is a `loop { }` with nothing before or after it, it reads no clock and keeps no budget,
+its only blocking call is the literal sleep, taken after the `ENV_MAP` guard is dropped -/
+theorem gate_wait_is_unbounded :
+    Gen.KvGate.enterTx.wait.loop = .forever ∧ Gen.KvGate.enterTx.wait.timeRefs = [] ∧
+    Gen.KvGate.enterTx.wait.pre = 0 ∧ Gen.KvGate.enterTx.wait.post = [] ∧
+    Gen.KvGate.enterTx.wait.otherWaits = 0 ∧ Gen.KvGate.enterTx.wait.sleepMs = [10] ∧
+    Gen.KvGate.enterTx.wait.lockReleasedBeforeSleep = true := by decide
+
+/-- all of it, plus: the passing branch counts the transaction globally and per thread, and the
+only `unwrap`s are the two look-ups of the environment entry -/
+theorem gate_shape_ok : Gen.KvGate.enterTx.Ok := by decide
+
+/-- `maybe_resize`: flag first, deferred iff `open_txs_count() != 0`; the waiter is a `loop { }`
+whose one way out is `break` under `txs_count == 0`, followed by `env.resize`, `resizing = false`,
+`resize_checking = false`; no clock, no budget; `batch()` = `maybe_resize(); Batch::new(self)` -/
+theorem waiter_shape_ok : Gen.KvGate.resize.Ok := by decide
+
+/-- the functions that take the gate are exactly these four … -/
+theorem gate_sites :
+    Gen.KvGate.sites.map (·.name) = ["Store::get_ser", "Store::exists", "Store::iter", "Batch::new"] := by decide
+
+/-- … each takes it BEFORE it opens its LMDB transaction … -/
+theorem gate_before_txn : ∀ site ∈ Gen.KvGate.sites, site.gateBeforeTxn = true := by decide
+
+/-- … unconditionally, once, without `?`, and keeps the counter -/
+theorem gate_result_never_discarded : ∀ site ∈ Gen.KvGate.sites,
+    site.gateCalls = 1 ∧ site.unconditional = true ∧ site.question = false ∧ site.held = true := by decide
+
+theorem gate_sites_ok : ∀ site ∈ Gen.KvGate.sites, site.Ok := by decide
+
+/-- LMDB transactions opened WITHOUT the gate exist only on the set-up path of `Store::new`
+(database creation, migration) - recorded, see the level note -/
+theorem ungated_txns_are_setup_only :
+    Gen.KvGate.ungatedTxnFns =
+      ["Store::new", "Store::migration_complete", "Store::migrate_to_default_env", "Store::clear"] := by decide
+
+/-- What a wait of the demanded shape does, whatever the polls find (`ρs j` = the flags poll `j`
+sees, `ends` = irrelevant for a `loop { }`):
+* as long as a resize is pending and the thread holds nothing it keeps polling - for ANY number of
+  polls, there is no bound;
+* it passes at the FIRST poll that finds the flag cleared (or the thread nested);
+* there is no third outcome: never an error, never the end of the loop; and it never passes while
+  the flag is set and the thread holds nothing. -/
+theorem pending_op_waits_then_proceeds (e : EnterShape) (he : e.Ok) (ρs : Nat → Env) (ends : Nat → Bool) :
+    (∀ n i, (∀ j, i ≤ j → j < i + n → (ρs j).held) → pollRun e.wait ρs ends n i = .waiting) ∧
+    (∀ m n i, (∀ j, i ≤ j → j < i + m → (ρs j).held) → ¬ (ρs (i + m)).held → m < n →
+      pollRun e.wait ρs ends n i = .left (i + m) .pass) ∧
+    (∀ n i, pollRun e.wait ρs ends n i = .waiting ∨
+      ∃ j, i ≤ j ∧ pollRun e.wait ρs ends n i = .left j .pass ∧ ¬ (ρs j).held) := by
+  obtain ⟨_, _, hl, hx, _⟩ := he
+  refine ⟨?_, ?_, ?_⟩
+  · intro n i h
+    exact pollRun_single_waiting e.wait _ _ hl hx ρs ends n i (fun j h1 h2 => (guard_enter_false_iff _).2 (h j h1 h2))
+  · intro m n i h ht hn
+    refine pollRun_single_leaves e.wait _ _ hl hx ρs ends m n i
+      (fun j h1 h2 => (guard_enter_false_iff _).2 (h j h1 h2)) ?_ hn
+    cases hg : guardHolds (ρs (i + m)) [.notResizing, .threadNested]
+    · exact absurd ((guard_enter_false_iff _).1 hg) ht
+    · rfl
+  · intro n i
+    rcases pollRun_single_sound e.wait _ _ hl hx ρs ends n i with h | ⟨j, hj, h1, h2⟩
+    · exact Or.inl h
+    · refine Or.inr ⟨j, hj, h1, fun hh => ?_⟩
+      rw [(guard_enter_false_iff _).2 hh] at h2
+      cases h2
+
+/-- non-vacuity, on the generated shape: pending for three polls, then released -/
+example :
+    pollRun Gen.KvGate.enterTx.wait
+      (fun j => { resizing := decide (j < 3), nested := false, count := 3 - j, unknown := false }) (fun _ => true) 3 0 = .waiting ∧
+    pollRun Gen.KvGate.enterTx.wait
+      (fun j => { resizing := decide (j < 3), nested := false, count := 3 - j, unknown := false }) (fun _ => true) 9 0 = .left 3 .pass := by
+  decide
+
+/-- The waiter of the demanded shape goes on to `env.resize` exactly at the first poll that finds
+`open_txs_count == 0`; as long as a transaction is open it keeps polling, however long; it has no
+other way out (in particular it never resizes "anyway"). -/
+theorem waiter_resizes_only_when_nothing_open (r : ResizeShape) (hr : r.Ok) (ρs : Nat → Env) (ends : Nat → Bool) :
+    (∀ n i, (∀ j, i ≤ j → j < i + n → (ρs j).count ≠ 0) → pollRun r.waiter ρs ends n i = .waiting) ∧
+    (∀ m n i, (∀ j, i ≤ j → j < i + m → (ρs j).count ≠ 0) → (ρs (i + m)).count = 0 → m < n →
+      pollRun r.waiter ρs ends n i = .left (i + m) .breakOut) ∧
+    (∀ n i, pollRun r.waiter ρs ends n i = .waiting ∨
+      ∃ j, i ≤ j ∧ pollRun r.waiter ρs ends n i = .left j .breakOut ∧ (ρs j).count = 0) ∧
+    r.waiter.post = [.resize, .clearResizing, .clearChecking] := by
+  obtain ⟨_, _, hl, hx, _, _, hp, _⟩ := hr
+  refine ⟨?_, ?_, ?_, hp⟩
+  · intro n i h
+    exact pollRun_single_waiting r.waiter _ _ hl hx ρs ends n i
+      (fun j h1 h2 => by rw [guard_waiter]; simpa using h j h1 h2)
+  · intro m n i h ht hn
+    exact pollRun_single_leaves r.waiter _ _ hl hx ρs ends m n i
+      (fun j h1 h2 => by rw [guard_waiter]; simpa using h j h1 h2) (by rw [guard_waiter]; simpa using ht) hn
+  · intro n i
+    rcases pollRun_single_sound r.waiter _ _ hl hx ρs ends n i with h | ⟨j, hj, h1, h2⟩
+    · exact Or.inl h
+    · exact Or.inr ⟨j, hj, h1, by rw [guard_waiter] at h2; simpa using h2⟩
+
+/-- The transition systems of the other theorems ARE the gate of this shape: in `Model/TxCount.lean`
+(`nested_depth_tracks_open`, `holder_never_waits`, `no_resize_while_read_in_flight`, C17's
+`count_eq_open`) `enter t` is enabled iff one poll of the generated `enter_tx` loop finds its exit,
+`resize` iff the flag is set and one poll of the generated waiter loop finds its exit; likewise
+`enter` in the gate of `resize_gate_safe`. -/
+theorem shape_is_the_modelled_gate :
+    (∀ (s : TxCount.St) (t : Nat) (u : Bool), t < s.ths.length →
+      (TxCount.enabled s (.enter t) = true ↔
+        pollIter (envOf s t u) Gen.KvGate.enterTx.wait.exits = .exit .pass)) ∧
+    (∀ (s : TxCount.St) (n u : Bool),
+      (TxCount.enabled s .resize = true ↔
+        (s.resizing = true ∧
+          pollIter { resizing := s.resizing, nested := n, count := s.counter, unknown := u }
+            Gen.KvGate.resize.waiter.exits = .exit .breakOut))) ∧
+    (∀ (g : Gate) (t : Nat) (u : Bool), t < g.cnt.length →
+      (gateEnabled g (.enter t) = true ↔
+        pollIter { resizing := g.resizing, nested := decide (cntOf t g.cnt > 0), count := g.openTxs, unknown := u }
+          Gen.KvGate.enterTx.wait.exits = .exit .pass)) := by
+  have h1 : Gen.KvGate.enterTx.wait.exits = enterExits := by decide
+  have h2 : Gen.KvGate.resize.waiter.exits = waiterExits := by decide
+  rw [h1, h2]
+  exact ⟨txcount_enter_is_poll, txcount_resize_is_poll, kvgate_enter_is_poll⟩
+
+/-- The resize protocol model of `Model/KvResize.lean` (`resize_guard_released`,
+`postponed_resize_happens`, `unbounded_growth_stays_aligned_and_sufficient`, the `rz-batch` lines
+of the driver) IS `maybe_resize` / the waiter read through the generated shape: the branch on open
+transactions, what the waiter does when its loop lets it go, what the immediate branch does. -/
+theorem resize_model_is_the_shape :
+    (∀ e : REnv, waiterStepOf Gen.KvGate.resize e = waiterStep e) ∧
+    (∀ (e : REnv) (used : Nat), maybeResizeOf Gen.KvGate.resize e used = maybeResize e used) :=
+  ⟨waiterStepOf_eq _ waiter_shape_ok, maybeResizeOf_eq _ waiter_shape_ok⟩
+
+/-- non-vacuity: the deferred and the released step on the generated shape -/
+example : (maybeResizeOf Gen.KvGate.resize { rinit 1048576 1048576 with openTxs := 1 } 1000000).2 = .deferred 2097152 ∧
+    (waiterStepOf Gen.KvGate.resize
+      { (maybeResizeOf Gen.KvGate.resize { rinit 1048576 1048576 with openTxs := 1 } 1000000).1 with openTxs := 0 }).mapSize
+      = 2097152 := by decide
+
+theorem opensFrom_no_enter (x : Nat) : ∀ (acts : List Act), (∀ a ∈ acts, a ≠ Act.enter x) → opensFrom x 0 acts = 0
+  | [], _ => rfl
+  | a :: r, h => by
+    have ih := opensFrom_no_enter x r (fun b hb => h b (by simp [hb]))
+    cases a with
+    | enter u =>
+      have hu : u ≠ x := fun e => h (.enter u) (by simp) (by rw [e])
+      simp [opensFrom, hu, ih]
+    | leave u => by_cases hu : u = x <;> simp [opensFrom, hu, ih]
+    | _ => simp [opensFrom, ih]
+
+/-- **Operations that arrive while a resize is pending wait and then succeed, however long the
+transaction that defers the resize lives.**  Hypothesis: a gate shape with the demanded properties
+(`he`; discharged for the code by `gate_shape_ok`, see the corollary).  `s` is any state of the
+counter protocol reached by the atomic alphabet in which a resize is pending; thread `x` holds
+nothing and issues a plain-store read whose sequential answer is `sget kv k` (the committed value -
+`store_iter_correct`, `invisible_until_outer_commit` say what that is).
+1. Whatever the other threads do in between - any number of further operations of the holders,
+   nested or not, polls seeing the states after ANY valid schedules without the resize itself and
+   without an enter of `x` - the operation is still blocked after ANY number of polls; it has not
+   failed.
+2. Nothing but the holders' own leaves is needed for the resize to run; after it the operation
+   returns the sequential answer at its next poll.
+3. Whatever the polls find, the operation never returns an error. -/
+theorem op_during_pending_resize_returns_spec (e : EnterShape) (he : e.Ok)
+    (threads : Nat) (acts : List Act) (s : TxCount.St)
+    (hat : ∀ a ∈ acts, a.atomic = true) (hrun : runChecked (TxCount.init threads) acts = some s)
+    (hres : s.resizing = true) (x : Nat) (hout : depth s x = 0) (kv : Kv.St) (k : Key) :
+    (∀ (mids : Nat → List Act) (ss : Nat → TxCount.St),
+      (∀ j, runChecked s (mids j) = some (ss j) ∧ (∀ a ∈ mids j, a.atomic = true) ∧
+        (∀ a ∈ mids j, a ≠ .resize) ∧ (∀ a ∈ mids j, a ≠ .enter x)) →
+      ∀ (u : Bool) (ends : Nat → Bool) (n : Nat),
+        storeOp e (fun j => envOf (ss j) x u) ends n (sget kv k) = .blocked) ∧
+    (∃ (closing : List Act) (s₂ : TxCount.St), (∀ a ∈ closing, ∃ t, a = Act.leave t) ∧
+      runChecked s (closing ++ [.resize]) = some s₂ ∧ s₂.resizing = false ∧ s₂.resizes = s.resizes + 1 ∧
+      s₂.counter = 0 ∧
+      ∀ (u : Bool) (ends : Nat → Bool) (n : Nat), 0 < n →
+        storeOp e (fun _ => envOf s₂ x u) ends n (sget kv k) = .ok (sget kv k)) ∧
+    (∀ (ρs : Nat → Env) (ends : Nat → Bool) (n : Nat), storeOp e ρs ends n (sget kv k) ≠ .err) := by
+  have hp := pending_op_waits_then_proceeds e he
+  refine ⟨?_, ?_, ?_⟩
+  · intro mids ss h u ends n
+    have hheld : ∀ j, (envOf (ss j) x u).held := by
+      intro j
+      obtain ⟨h1, h2, h3, h4⟩ := h j
+      have hr := resizing_kept (mids j) s (ss j) h1 hres h3
+      have hd : depth (ss j) x = 0 := by
+        rw [depth_run (mids j) s (ss j) x h2 h1, hout]
+        exact opensFrom_no_enter x (mids j) h4
+      exact ⟨hr, by simp [envOf, hd]⟩
+    have := (hp (fun j => envOf (ss j) x u) ends).1 n 0 (fun j _ _ => hheld j)
+    simp [storeOp, this]
+  · have inv := inv_run acts _ s (inv_init threads) hat hrun
+    obtain ⟨closing, s₁, h1, h2, h3, h4, h5, _, _⟩ := holders_can_close s.counter s inv rfl
+    have hen : enabled s₁ .resize = true := by simp [enabled, h3, h4, hres]
+    refine ⟨closing, TxCount.step s₁ .resize, h1, ?_, by simp [TxCount.step], by simp [TxCount.step, h5],
+      by simp [TxCount.step, h3], ?_⟩
+    · rw [runChecked_append, h2]
+      simp [runChecked, hen]
+    · intro u ends n hn
+      have hnh : ¬ (envOf (TxCount.step s₁ .resize) x u).held := by
+        intro hh
+        have := hh.1
+        simp [envOf, TxCount.step] at this
+      have := (hp (fun _ => envOf (TxCount.step s₁ .resize) x u) ends).2.1 0 n 0
+        (fun j h1 h2 => absurd h2 (by omega)) hnh hn
+      simp [storeOp, this]
+  · intro ρs ends n
+    rcases (hp ρs ends).2.2 n 0 with h | ⟨j, _, h, _⟩ <;> simp [storeOp, h]
+
+/-- … for the gate of the code: the hypothesis is discharged by the table regenerated from
+`store/src/lmdb.rs` -/
+theorem code_op_during_pending_resize_returns_spec
+    (threads : Nat) (acts : List Act) (s : TxCount.St)
+    (hat : ∀ a ∈ acts, a.atomic = true) (hrun : runChecked (TxCount.init threads) acts = some s)
+    (hres : s.resizing = true) (x : Nat) (hout : depth s x = 0) (kv : Kv.St) (k : Key) :
+    (∀ (mids : Nat → List Act) (ss : Nat → TxCount.St),
+      (∀ j, runChecked s (mids j) = some (ss j) ∧ (∀ a ∈ mids j, a.atomic = true) ∧
+        (∀ a ∈ mids j, a ≠ .resize) ∧ (∀ a ∈ mids j, a ≠ .enter x)) →
+      ∀ (u : Bool) (ends : Nat → Bool) (n : Nat),
+        storeOp Gen.KvGate.enterTx (fun j => envOf (ss j) x u) ends n (sget kv k) = .blocked) ∧
+    (∃ (closing : List Act) (s₂ : TxCount.St), (∀ a ∈ closing, ∃ t, a = Act.leave t) ∧
+      runChecked s (closing ++ [.resize]) = some s₂ ∧ s₂.resizing = false ∧ s₂.resizes = s.resizes + 1 ∧
+      s₂.counter = 0 ∧
+      ∀ (u : Bool) (ends : Nat → Bool) (n : Nat), 0 < n →
+        storeOp Gen.KvGate.enterTx (fun _ => envOf s₂ x u) ends n (sget kv k) = .ok (sget kv k)) ∧
+    (∀ (ρs : Nat → Env) (ends : Nat → Bool) (n : Nat),
+      storeOp Gen.KvGate.enterTx ρs ends n (sget kv k) ≠ .err) :=
+  op_during_pending_resize_returns_spec Gen.KvGate.enterTx gate_shape_ok threads acts s hat hrun hres x hout kv k
+
+/-- non-vacuity of the hypotheses (the schedule of run `slowreader`): thread 0 holds an iterator,
+thread 1's `batch()` requests the resize, thread 2 holds nothing -/
+example : ∃ s, runChecked (TxCount.init 3) [.enter 0, .request] = some s ∧ s.resizing = true ∧ depth s 2 = 0 ∧
+    (∀ a ∈ [Act.enter 0, Act.request], a.atomic = true) ∧
+    runChecked s ([.enter 0, .leave 0, .enter 0, .leave 0, .leave 0] ++ [.resize]) =
+      some { counter := 0, resizing := false, resizes := 1, ths := [{}, {}, {}] } :=
+  ⟨_, rfl, rfl, rfl, by decide, by decide⟩
+
+/-- The driver's answer for the lines `kv gate-op` / `kv gate-wait` of run `slowreader` (one
+evaluation of the gate of the generated shape: the flags as issued, then as after the release):
+every operation returns its sequential answer; it waited iff a resize was pending and the thread
+held nothing. -/
+theorem gate_op_outcome_spec (nested pending : Bool) :
+    (gateOpOutcome Gen.KvGate.enterTx.wait.exits nested pending).1 = "ok" ∧
+    ((gateOpOutcome Gen.KvGate.enterTx.wait.exits nested pending).2 = "blocked" ↔ (pending = true ∧ nested = false)) ∧
+    gateOpOutcome Gen.KvGate.enterTx.wait.exits nested pending = gateOpOutcome enterExits nested pending := by
+  cases nested <;> cases pending <;> decide
+
+/-- Sites of the demanded shape keep every LMDB transaction inside its counter: after ANY
+interleaving of ANY number of threads, each running operations of such sites one after the other
+(a step of thread `t` takes the next action of its current operation, or starts the given one when
+idle), the transactions alive are at most the counters alive - so when the resizer reads
+`open_txs_count == 0` (the counter is the sum of the threads' counters,
+`nested_depth_tracks_open`) NO LMDB transaction is alive and `env.resize` is legal. -/
+theorem gated_txns_are_counted (sites : List Site) (hs : ∀ site ∈ sites, site.Ok) (threads : Nat)
+    (sched : List (Nat × List LAct)) (hsched : ∀ x ∈ sched, ∃ site ∈ sites, x.2 = site.prog) :
+    let ths := lrun (List.replicate threads {}) sched
+    liveSum ths ≤ countedSum ths ∧ (countedSum ths = 0 → liveSum ths = 0) := by
+  intro ths
+  have h : LInv ths := linv_run sched _ (linv_init threads) (by
+    intro x hx s hle
+    obtain ⟨site, hm, hp⟩ := hsched x hx
+    rw [hp]
+    exact site_prog_covered site (hs site hm) s hle)
+  have := sums_of_linv ths h
+  exact ⟨this, fun h0 => by omega⟩
+
+/-- … for the sites of the code -/
+theorem code_gated_txns_are_counted (threads : Nat) (sched : List (Nat × List LAct))
+    (hsched : ∀ x ∈ sched, ∃ site ∈ Gen.KvGate.sites, x.2 = site.prog) :
+    let ths := lrun (List.replicate threads {}) sched
+    liveSum ths ≤ countedSum ths ∧ (countedSum ths = 0 → liveSum ths = 0) :=
+  gated_txns_are_counted Gen.KvGate.sites gate_sites_ok threads sched hsched
+
+/-- non-vacuity: two threads inside `Store::iter` and `Batch::new` of the generated table -/
+example : lrun (List.replicate 2 {}) [(0, [.gate, .txnBegin, .txnEnd, .ungate]), (1, [.gate, .txnBegin, .txnEnd, .ungate]),
+      (0, []), (1, [])] =
+    [{ st := { counted := 1, live := 1 }, todo := [.txnEnd, .ungate] },
+     { st := { counted := 1, live := 1 }, todo := [.txnEnd, .ungate] }] ∧
+    (Gen.KvGate.sites.map (·.prog)).all (· == [.gate, .txnBegin, .txnEnd, .ungate]) = true := by decide
+
+/-- Kernel-checked witnesses of what the obligations exclude.
+(a) a wait with a second exit `return Err(..)` under a condition the gate does not control (a
+    clock): an operation issued while a resize is pending FAILS as soon as that condition holds,
+    although the resize would have come;
+(b) a guard with a third disjunct (a mode flag, a retry count): the operation passes while the flag
+    is set and the thread holds nothing;
+(c) a site that opens its transaction first: an LMDB transaction is alive while every counter is 0,
+    i.e. while the resizer believes nothing is open (`mdb_env_set_mapsize` then answers `EINVAL` and
+    the map silently stays as it is - seeded change C18-M). -/
+theorem excluded_shapes_witness :
+    (storeOp boundedWaitShape (fun j => { resizing := true, nested := false, count := 1, unknown := decide (j ≥ 5) })
+       (fun _ => false) 6 (some [1]) = OpRes.err (α := Option Val) ∧
+     storeOp boundedWaitShape (fun j => { resizing := true, nested := false, count := 1, unknown := decide (j ≥ 5) })
+       (fun _ => false) 5 (some [1]) = OpRes.blocked (α := Option Val) ∧
+     boundedWaitShape.wait.exits = Gen.KvGate.enterTx.wait.exits ++ [{ kind := .err, guard := [.other] }]) ∧
+    (pollIter { resizing := true, nested := false, count := 1, unknown := true }
+        [{ kind := .pass, guard := [.notResizing, .threadNested, .other] }] = .exit .pass) ∧
+    (countedSum (lrun [{}] [(0, swappedSite.prog)]) = 0 ∧ liveSum (lrun [{}] [(0, swappedSite.prog)]) = 1 ∧
+      swappedSite.gateBeforeTxn = false) := by
+  refine ⟨?_, by decide, by decide⟩
+  decide
+
+end gateShape
 
 /-! ## the typed layer `chain/src/store.rs` (`ChainStore`, its `Batch`) -/
 section typed
